@@ -15,6 +15,11 @@ mod verif_c06 {
     #[kani::unwind(9)]
     fn c06_entry_count7() { counters_case(7); }
 
+    // @h name=c06_entry_count10 tier=thorough timeout=5400 mem=32
+    #[kani::proof]
+    #[kani::unwind(12)]
+    fn c06_entry_count10() { counters_case(10); }
+
     fn counters_case(steps: usize) {
         let (a0, b0): (u64, u64) = (kani::any(), kani::any());
         let e = CacheEntry::new(Dy((a0, b0)), sid("a"), || true);
